@@ -23,7 +23,7 @@ TECHNIQUE = ("explicit-state search over insertion histories of the real AabbTre
              "de-duplication, RNG seam enumerating every shuffle permutation) vs list-of-boxes reference model; "
              "re-run under NUMBA_BOUNDSCHECK=1 for memory safety")
 RULE = ("state = canonical tree arrays + payload lists reached by an operation history; transition = one insert_aabb / "
-        "insert_aabbs call; in every state invariants + 14 box queries + tree-vs-tree queries against 6 reference trees (incl. the empty tree) "
+        "insert_aabbs call; in every state invariants + 14 box queries + tree-vs-tree queries against 9 reference trees (incl. the empty tree and small clusters inside the explored boxes) "
         "(both directions); non-trivial = state with >= 2 leaves reached by >= 2 operations; distinct = distinct canonical state")
 ASSUMPTIONS = ["reference model = python list of (box, payload, insert index), closed-interval overlap written out again",
                "shards (first operation) are explored independently; distinct-state counts are per shard sums"]
@@ -55,7 +55,19 @@ FLAT_BOXES = [
     _box((0, 0, 1), (3, 3, 1)),      # big plate containing all
     _box((0, 0, 2), (1, 1, 2)),      # plate in a parallel plane
 ]
-BOXSETS = {"std": BOXES, "flat": FLAT_BOXES}
+# small boxes that only the reference trees of the tree-vs-tree queries use (indices 8-11; the operation alphabets range over the
+# first <= 8 boxes): clusters lying inside one or several of the explored boxes
+BOXES += [_box((0.25, 0.25, 0.25), (0.5, 0.5, 0.5)), _box((1.25, 0.25, 0.25), (1.5, 0.5, 0.5)), _box((2.5, 2.5, 2.5), (2.75, 2.75, 2.75)),
+          _box((1.6, 0.6, 0.6), (1.8, 0.8, 0.8))]
+FLAT_BOXES += [_box((0.25, 0.25, 1), (0.5, 0.5, 1)), _box((2.25, 0.25, 1), (2.5, 0.5, 1)), _box((1.25, 1.25, 1), (1.5, 1.5, 1)),
+               _box((1.6, 0.2, 1), (1.8, 0.4, 1))]
+def _dec(b):
+    """The same box on a 0.1 grid shifted by 0.3: touching faces keep bit-equal (non-dyadic) coordinates."""
+    return np.ascontiguousarray(np.asarray(b, dtype=float) * 0.1 + 0.3)
+
+
+DEC_BOXES = [_dec(b) for b in BOXES]
+BOXSETS = {"std": BOXES, "flat": FLAT_BOXES, "dec": DEC_BOXES}
 _ACTIVE = ["std"]
 
 
@@ -71,6 +83,17 @@ QUERIES = [
     _box((-2.5, -2.5, -2.5), (-2.5, -2.5, -2.5)), _box((1.0000001, 0, 0), (2, 1, 1)),
     _box((0, 0, 1), (0.5, 0.5, 1)), _box((2.5, 0, 0), (2.5, 0, 3)), _box((0, 0, 1.5), (3, 3, 2.5)), _box((1.5, 0.5, 1), (1.5, 0.5, 1)),
 ]
+
+
+_DEC_QUERIES = []
+
+
+def queries():
+    if _ACTIVE[0] == "dec":
+        if not _DEC_QUERIES:
+            _DEC_QUERIES.extend(_dec(q) for q in QUERIES)
+        return _DEC_QUERIES
+    return QUERIES
 
 
 def _ops(nb, max_batch, with_dups=True, all_perms=True, data_variants=True):
@@ -137,6 +160,11 @@ def enumerate_states(tier, seed):
         n = len(alphabet(name))
         for first in range(n):
             states.append({"alphabet": name, "depth": depth, "first": first, "boxes": "flat"})
+    # and over the same boxes on a non-dyadic 0.1 grid (exactly touching faces with coordinates that are not exact in binary)
+    for name, depth in ((("red4", 2),) if tier == "quick" else (("red", 2), ("tiny4", 3))):
+        n = len(alphabet(name))
+        for first in range(n):
+            states.append({"alphabet": name, "depth": depth, "first": first, "boxes": "dec"})
     meta = {"bound_completed": "; ".join("all histories of <= %d operations over alphabet '%s' (%d operations)" %
                                          (d, n, len(alphabet(n))) for n, d in plan),
             "exhaustive": True}
@@ -271,7 +299,7 @@ def check_invariants(tree, model, cls, hist_desc, viol):
 
 
 def check_queries(tree, model, cls, hist_desc, viol, counters):
-    for qi, q in enumerate(QUERIES):
+    for qi, q in enumerate(queries()):
         exp = sorted((repr(p), idx) for _, b, p, idx in model.leaves if _ovl(b, q))
         counters["q"] += 1
         try:
@@ -301,6 +329,9 @@ REF_HISTORIES = [
     [("batch", (3, 7, 4), "none", None, True)],
     [("single", (5,), "none", None, True), ("batch", (2, 0, 6), "none", None, False)],
     [("batch", (0, 1, 2), "none", None, True), ("single", (3,), "none", None, True), ("single", (7,), "none", None, True)],
+    [("single", (8,), "none", None, True)],
+    [("batch", (8, 10, 9), "none", None, True)],
+    [("batch", (9, 11), "none", None, True)],      # two small boxes inside box 1 only (std) / between the plates (flat)
 ]
 
 
